@@ -62,7 +62,12 @@ def load_findings():
     if not os.path.exists(p):
         return []
     with open(p) as f:
-        return json.load(f).get('findings', [])
+        out = json.load(f).get('findings', [])
+    extra = os.environ.get('VERIF_EXTRA_FINDINGS')   # development aid only
+    if extra and os.path.exists(extra):
+        with open(extra) as f:
+            out = out + json.load(f).get('findings', [])
+    return out
 
 
 def main(argv=None):
